@@ -882,6 +882,10 @@ def simplify(e):
         for p_ in e[2]:
             v = simplify(("field", v, p_))
         return v
+    if e[0] == "call" and len(e) == 4 and e[1] == "<Range<Idx> as Clone>::clone" and len(e[2]) == 1 and isinstance(e[2][0], tuple) and e[2][0][:1] == ("ref",) \
+            and isinstance(e[2][0][1], tuple) and e[2][0][1][:1] == ("local",) and len(e[2][0][1]) == 3:
+        # the clone of a Range held in a local is that Range (a pair of integers)
+        return e[2][0][1][2]
     if e[0] == "field" and isinstance(e[1], tuple) and e[1][0] == "agg":
         for fname, fe in e[1][3]:
             if fname == e[2]:
